@@ -112,6 +112,7 @@ func c04(c *Ctx) {
 	c01R3(c)
 	// the container-ID guard compares with the latest ADD: every acknowledged ADD rewrites the record (shared rule)
 	c05R1(c)
+	c03R8(c)
 }
 
 // pendingField is networkService.pendingPods
